@@ -339,6 +339,36 @@ def Node.heightKids : List Node → Nat
   | k :: ks => max (Node.height k) (Node.heightKids ks)
 end
 
+/-! ### the domain on which bytes = rendering -/
+
+def Outcome.mapOk {α β : Type} (g : α → β) : Outcome α → Outcome β
+  | .ok a => .ok (g a)
+  | .eof => .eof
+  | .syntax => .syntax
+  | .err k => .err k
+  | .panic s => .panic s
+
+def isNumVal : Val → Bool
+  | .num _ => true
+  | _ => false
+
+mutual
+/-- values whose leaves are strings, except for the numbers under the sequence key (Go writes
+    numbers, booleans and `nil` with `%v`, unescaped; a `nil` element value is written as an
+    unterminated tag) -/
+def seqPlain (c : SeqCfg) : Val → Bool
+  | .str _ => true
+  | .list xs => seqPlainList c xs
+  | .map kvs => seqPlainEntries c kvs
+  | _ => false
+def seqPlainList (c : SeqCfg) : List Val → Bool
+  | [] => true
+  | x :: xs => seqPlain c x && seqPlainList c xs
+def seqPlainEntries (c : SeqCfg) : Entries → Bool
+  | [] => true
+  | (k, v) :: rest => ((k = c.seqK && isNumVal v) || seqPlain c v) && seqPlainEntries c rest
+end
+
 /-! ### a sample document -/
 
 namespace SeqSample
